@@ -267,7 +267,7 @@ def replay_c05(path):
 
 # ------------------------------------------------------------------------------------------ C18
 
-C18_SCOPED = ['for', 'forelse', 'forfilter', 'forfilterloop', 'forloopiter', 'forunpack', 'with', 'setblock', 'setblockf', 'filter', 'autoescape', 'if', 'ifelse']
+C18_SCOPED = ['for', 'forelse', 'forelsevar', 'forfilter', 'forfilterloop', 'forloopiter', 'forunpack', 'with', 'setblock', 'setblockf', 'filter', 'autoescape', 'if', 'ifelse']
 C18_LEAVES = ['emit', 'emitvar', 'set', 'setself', 'withself', 'ifbreak', 'setblockself', 'looplookup', 'slice', 'nsset', 'callarg', 'testarg', 'ifexpr']
 
 
